@@ -37,6 +37,11 @@ def handlePipes (op : String) (a : Json) : Option Json :=
       ("stderr_runs", Json.arr ((contentRuns .err 0 prog).map fun r => Json.arr #[Json.num (JsonNumber.fromNat r.1), Json.num (JsonNumber.fromNat r.2)]).toArray),
       ("complete_in_model", Json.bool (st.outGot == progBytes .out progU && st.errGot == progBytes .err progU)),
       ("exit", Json.num (JsonNumber.fromInt (exitCode wr)))])
+  | "runerr" =>
+    let c : StartClass := match getStr a "class" with
+      | "startable" => .startable | "empty" => .emptyArgv | "notfound" => .notFound
+      | "notexec" => .notExecutable | "isdir" => .isDirectory | _ => .badRunDir
+    some (Json.bool (runCommandErrors c))
   | _ => none
 
 end Drv
